@@ -10,6 +10,7 @@ emitted as code that is never sequenced) - a violation; the replay records what 
 """
 import json
 import os
+import re
 
 from vf import core, cparse, drive, il, prog
 
@@ -108,6 +109,35 @@ def space():
     return out
 
 
+# second half of the property: if code is returned, every statement and side-effecting
+# sub-expression is represented in the returned sequence.  Supported (or possibly rejected) forms
+# in which an inner effect could be emitted but left out of the sequence:
+SEQUENCED = [
+    "{ RdV = RxV = RsV; }", "{ RdV = RxV = RyV = RsV; }", "{ RdV = RxV = RyV = ReV = RsV; }", "{ RdV = RxV = i++; }", "{ RdV = RxV = clz32(RsV); }",
+    "{ RdV = RxV = get_npc(pkt); }", "{ RdV = RxV = ({ RyV = RsV; RyV + 1; }); }", "{ RdV = (RxV = RsV) + 1; }", "{ if (RsV) { RdV = RxV = RyV = 1; } }",
+    "{ for (i = 0; i < 2; i++) { RdV = RxV = i; } }", "{ RdV = RsV; { RxV = RtV; { RyV = RsV; } } }", "{ RdV = RsV ? ({ RxV = 1; 2; }) : ({ RyV = 3; 4; }); }",
+    "{ RdV = clz32(RsV) + clz32(RtV) + clz32(RsV + RtV); }", "{ i = 0; i++; i++; RdV = i; }", "{ mem_store_u8(RsV, RtV); mem_store_u8(RsV + 1, RtV); }",
+    "{ if (RsV) { JUMP(RtV); } else { JUMP(RsV); } }", "{ set_usr_field(bundle, HEX_REG_FIELD_USR_OVF, 1); RdV = get_usr_field(bundle, HEX_REG_FIELD_USR_OVF); }",
+    "{ RdV = 1; ; ; RxV = 2; }", "{ int32_t t = RsV; int32_t u = t + 1; RdV = u; }", "{ RxV += RsV; RxV -= RtV; RxV <<= 1; }",
+]
+
+
+def seq_work(text):
+    comp = _JOB["comp"]
+    r = drive.compile_stmt_fresh(comp, text)
+    if r[0] != "ok":
+        return ("raised", r[1])
+    try:
+        b = il.parse_body(r[1])
+        lin = [e for e in il.check_linearity(b) if "never sequenced" in e]
+    except Exception as e:
+        lin = ["unreadable: %r" % (e,)]
+    # every assignment / store / jump / call of the source must have a counterpart effect
+    n_src = len([1 for _ in re.finditer(r"(?<![=!<>+\-*/&|^])=(?!=)|\+\+|--|mem_store_|JUMP\(|set_usr_field\(", text)])
+    n_eff = len([d for d in b.decls if d.kind == "effect" and d.expr[0] == "call" and (d.expr[1] in ("SETL", "WRITE_REG", "STOREW", "SEQ2") or d.expr[1].startswith("hex_") or d.expr[1].startswith("HEX_"))])
+    return ("accepted", lin[:3], n_src, n_eff, r[1][-500:])
+
+
 # known findings: (finding id, set of construct keys)
 KNOWN = [
     ("KF-argless-call-dropped", {"stmt:unknown-call-noargs", "expr:unknown-call-noargs"}),
@@ -137,7 +167,7 @@ def run(ctx):
     comp = drive.get_compiler("stmt")
     items = space()
     pc = drive.ParseCache("c15")
-    pc.ensure([t for _tag, t in items], seed=ctx.seed)
+    pc.ensure([t for _tag, t in items] + SEQUENCED, seed=ctx.seed)
     pc.save()
     drive.install_cache(comp, pc)
     _JOB["comp"] = comp
@@ -160,6 +190,17 @@ def run(ctx):
             fids,
             what="%s `%s` at %s compiled without an error: %s" % (tag[0], tag[1], tag[2], text),
         )
+    sres = core.pmap(seq_work, SEQUENCED, seed=ctx.seed)
+    n_seq_ok = 0
+    for text, r in zip(SEQUENCED, sres):
+        if r[0] == "raised":
+            continue
+        if r[1]:
+            ctx.report({"source": text, "unsequenced": r[1], "returned_text_tail": r[4]}, None, what="code returned but an effect is emitted and never sequenced: %s: %s" % (text, r[1][0]))
+        elif r[3] < r[2]:
+            ctx.report({"source": text, "source_side_effects": r[2], "emitted_effects": r[3], "returned_text_tail": r[4]}, None, what="code returned with fewer effects (%d) than the source has side effects (%d): %s" % (r[3], r[2], text))
+        else:
+            n_seq_ok += 1
     for (tag, text), r in list(zip(items, res))[:3]:
         ctx.sample({"construct": tag[1], "position": tag[2], "source": text, "outcome": r[0] if r[0] != "raised" else "raised " + r[1]})
     return ctx.finish(
@@ -167,6 +208,8 @@ def run(ctx):
             evaluations=len(items),
             distinct_nontrivial=len(set(t for _g, t in items)),
             raised=n_raised,
+            sequencing_programs=len(SEQUENCED),
+            sequencing_programs_fully_represented=n_seq_ok,
             accepted_silently=len(items) - n_raised,
             per_construct_raised_accepted={k: v for k, v in sorted(per_construct.items())},
             rule="complete cross product of %d unsupported statement forms x 10 statement positions and %d unsupported expression forms x 10 expression positions "
